@@ -16,9 +16,19 @@ def finding_key(req, obs, detail):
     if m:
         key = m.group(1)
         # `a < a > (X)`: any right operand that is printed in parentheses gives the same misreading
+        # (also when the operand only *starts* with `(`, e.g. `a < a > (++a)++`, where the call ends up below a postfix node)
         pre = "tree-differs[bin:GreaterThan->call] ret (bin GreaterThan (bin LessThan (id a) (id a)) "
-        if key.startswith(pre):
+        if re.match(r"tree-differs\[bin:GreaterThan->[^\]]*\] ret \(bin GreaterThan \(bin LessThan \(id a\) \(id a\)\) ", key):
             key = pre + "(bin BitwiseAnd (id a) (id a)))"
+        # the same misreading in any position (`f(a < b, c > (d))` reads as `f(a<b, c>(d))`): the re-read tree has
+        # template arguments although the original has none at all
+        eot = re.compile(r"\((?:E|B|T) \(")
+        if key.startswith("tree-differs") and " ==> " in (obs or "") and not eot.search(req) and eot.search(obs.split(" ==> ", 1)[1]):
+            key = pre + "(bin BitwiseAnd (id a) (id a)))"
+        # source stream: a declarator whose array size is a parenthesised comma expression (one class, whatever
+        # statement the 1-minimal program wraps around it)
+        if key.startswith("src rejected-by-parser ") and re.search(r"(?:\ba|>|,) a \[ \( \w+ , \w+ \) \]", key):
+            key = "src rejected-by-parser a a ( ) { a a [ ( a , a ) ] ; }"
         return key
     m = re.match(r"FAIL:panic ([^:]+):\d+: (.*)$", detail or "")
     if m:
@@ -34,13 +44,13 @@ SPEC = {
     "id": "C09",
     "gens": ["FmtTables", "ParseTables"],
     "lean_modules": ["RsslVerif.Thm.C09"],
-    "level_note": "roundtrip_expr_partial: WF excludes LitOk-failing literals, assignment as middle operand of a conditional "
-                  "(negation proved: ternary_middle_assignment_breaks); casts, sizeof, template "
+    "level_note": "roundtrip_expr_partial: WF excludes LitOk-failing literals only; casts, sizeof, template "
                   "arguments, braced init, statements and declarators are reached by the correspondence run only",
     "theorems": [T + n for n in [
         "binToks_lexes", "unTok_lexes", "tables_agree", "assoc_agrees", "ternary_level", "unary_tables_agree",
         "glue_prefix_prefix", "glue_postfix_next", "glue_needs_space", "paren_rule_matches_grammar",
-        "roundtrip_expr_partial", "roundtrip_subexpr_partial", "ternary_middle_assignment_breaks"]],
+        "roundtrip_expr_partial", "roundtrip_subexpr_partial", "literal_roundtrip_partial", "negative_literals_break",
+        "decimal_roundtrip"]],
     "harness": "c09",
     "harness_args": harness_args,
     "nontrivial": nontrivial,
@@ -50,8 +60,7 @@ SPEC = {
                   "inverse by structural induction for every tree over literals, identifiers, all unary and binary operators, "
                   "the conditional, member access, subscripts and calls, at every nesting depth and in front of every expression "
                   "terminator; the table-level obligations (precedence <-> level, associativity, spelling <-> tokens, operator "
-                  "glue) are decided over the regenerated tables; the full statement is refuted with a witness where it is "
-                  "false (assignment in the middle of a conditional). Casts, sizeof, template arguments, literals' text "
+                  "glue) are decided over the regenerated tables. Casts, sizeof, template arguments, literals' text "
                   "and statements/declarators are covered by the correspondence run only.",
     "rule": "requests = (context, expression tree) built directly as rssl_ast values, printed by the real "
             "rssl_formatter::format (HLSL) inside `return e;` / `e;` / `int v = e;` / `g(e)` / `g[e]`, re-read by the real "
